@@ -203,14 +203,17 @@ func c10Case(c *Ctx) {
 		var refTree string
 		var refFiles map[string]string
 		refDesc := ""
-		nruns := 2
+		nruns := 3
 		if c.thorough() {
-			nruns = 4
+			nruns = 5
 		}
 		for i := 0; i < nruns; i++ {
 			cfg := &RunCfg{Prog: prog, FCfg: fcfg, MaxSteps: 60000, Flags: flags}
 			swarmSched(c.Plan, cfg)
-			cfg.MapMode = i % 3
+			// ascending, a seeded shuffle, descending, further shuffles: sorted and
+			// reverse-sorted orders alone let order-dependent code get away (a
+			// broken sort of already sorted input still looks sorted)
+			cfg.MapMode = []int{0, 2, 1, 2, 2}[i%5]
 			cfg.MapSalt = salt + uint64(i)
 			r := c.RunOnce(cfg, nil)
 			if r.Class() != "complete" || len(r.Panics) > 0 {
@@ -321,6 +324,15 @@ func templateForkOrderProg(plan *Tape) *Prog {
 		{"USE_NUMS", ref("MAKE", "nums")},
 		{"USE_LISTF", ref("MAKE", "list", "value")},
 	}
+	// a literal typed map: its forks are known (and ordered) at compile time
+	litKeys := []string{"q", "b", "zz", "a", "m", "K", "0", "k9", "B"}
+	nk := 3 + plan.Draw(5)
+	lm := NewOMap()
+	off := plan.Draw(len(litKeys))
+	for i := 0; i < nk; i++ {
+		lm.Set(litKeys[(off+i*2)%len(litKeys)]+fmt.Sprint(i%3), int64(100+i))
+	}
+	vs = append(vs, variant{"USE_LIT", &Expr{Kind: ELit, Val: lm, T: mapOf(intT)}})
 	n := 0
 	for _, v := range vs {
 		if plan.Draw(3) > 0 || n == 0 {
